@@ -38,6 +38,8 @@ type Ev struct {
 	Slow bool   `json:"slow,omitempty"` // dial ok: the handle's Close() parks until closego
 	Deaf bool   `json:"deaf,omitempty"` // req: the Dial started for this request ignores its context; cancel: of such a thread
 	Hold bool   `json:"hold,omitempty"` // req: stop at connection:locked (inside the critical section) until closego 1000+i
+	CF   int    `json:"cf,omitempty"`   // mgr: credentials look-ups that fail first
+	SF   int    `json:"sf,omitempty"`   // mgr: connections whose Subscribe fails at once (handed out already closed)
 	EK   int    `json:"ek,omitempty"`   // dial fail: kind of error (0 plain, 1 wraps context.DeadlineExceeded, 2 wraps io.EOF)
 }
 
